@@ -9,15 +9,43 @@
    hyper is not tonic's code.  It enters through two functions [admits] / [resolves] and the
    three laws of [hyper_contract]; every theorem that needs them says so.
 
-   PARTIAL (not in the model, sampled by the harness h_shutdown on the real crates only):
-   h2 GOAWAY handling (the window between the two GOAWAY frames is folded into the hidden step
-   ConnSeesChange: "gs" is the moment hyper stops admitting streams), tokio task scheduling and
-   the fairness of select! (liveness is stated as a variant plus absence of deadlock, not as
-   "eventually" under a scheduler), handler termination (CallCompletes is a progress step),
-   message contents (the callers' full outcomes are compared by the harness).
+   WHAT IS THEOREM AND WHAT IS SAMPLED, clause by clause of the property text:
+
+   (a) "no connection is accepted after the signal".  THEOREM from the moment the accept loop
+       OBSERVES the signal (label SignalObserved: select! polled the Fuse'd signal and took the
+       branch): c13_no_accept_after_signal, c13_no_accept_enabled_after_signal.  Between the
+       FIRING of the signal (SignalFires, the user's future becomes ready) and its observation the
+       model - like the code - allows further Accepts: tonic's select! is not `biased`, tokio picks
+       the branch order at random, so when the signal and the listener are ready in the same poll
+       either may win, repeatedly (Example c13_accepts_between_firing_and_observation).  What is
+       proved about that window: the signal branch stays enabled until it is taken
+       (c13_signal_enabled_until_observed) - that it IS taken is tokio's fairness, which is not in
+       the model.  SAMPLED by the harness (scenario kinds *.signal_vs_accept): how many connections
+       that were ready together with the signal got accepted (0..n, roughly halving per round);
+       each of them is served in full; at the first quiescent point after the firing the loop has
+       always left the select (event EIdleAfterFire, checked in every run).
+   (b) "every accepted call runs to completion".  In the model this is: tonic's connection task
+       has NO step that drops a live connection (the select loop of serve_connection is left only
+       when the hyper connection future resolves) PLUS law 2 of hyper_contract (hyper does not
+       resolve the future while streams are in flight).  So the theorems
+       (c13_accepted_call_survives_every_step, ...) are short; their content is the shape of the
+       step relation, and a change such as `_ = &mut sig => break` in serve_connection is caught by
+       the TIE (the harness sees ECallDropped / a caller without its outcome), not by a proof.
+   (c) "its caller receives the full, true outcome": SAMPLED only (harness oracle + outcome
+       comparison), for unary, server-streaming, client-streaming and bidirectional calls, the
+       client still sending when the signal fires included.
+   (d) "the serve future resolves only after all connections have closed - and does resolve once
+       they have": THEOREM (c13_serve_returns_*, c13_connections_closed_before_return,
+       c13_no_deadlock, c13_variant, c13_serve_can_return), liveness as a variant plus absence of
+       deadlock, not as "eventually" under a scheduler.
+
+   PARTIAL (not in the model): h2's frame handling beyond the two GOAWAY frames, tokio task
+   scheduling and the fairness of select!, handler termination (CallCompletes is a progress
+   step), message contents.
    Observed on the real crates and therefore in the model: a connection whose peer has not yet
-   sent the HTTP/2 preface is not closed by the shutdown (hyper only notes close_pending); the
-   serve future then waits for that peer - [only_silent] below. *)
+   sent the HTTP/2 preface is not closed by the shutdown (hyper only notes close_pending), and
+   the final GOAWAY waits for the peer's acknowledgement of the shutdown ping; the serve future
+   then waits for that peer - [only_awaiting_peers] below. *)
 From Coq Require Import List NArith Bool Arith.
 From Verif Require Import Lib.Obs Model.Shutdown Proofs.Shutdown.
 Import ListNotations.
@@ -70,9 +98,11 @@ Theorem c13_connections_closed_before_return :
               In (DropReceiver c) ls /\ (In (ConnCloses c) ls \/ In (PeerAbort c) ls).
 Proof. exact served_connections_closed_before_return. Qed.
 
+(* the only thing that can still happen is the user's signal firing, unheard *)
 Theorem c13_nothing_happens_after_return :
   forall admits resolves s l s',
-    reachable admits resolves s -> acc s = Done -> ~ step admits resolves s l s'.
+    reachable admits resolves s -> acc s = Done -> step admits resolves s l s' ->
+    l = SignalFires /\ acc s' = Done.
 Proof. exact done_terminal_reachable. Qed.
 
 (* ---- no accepted call is dropped -------------------------------------------------------------- *)
@@ -98,22 +128,30 @@ Theorem c13_every_accepted_call_completed_before_return :
     forall c k, In (NewCall c k) ls -> In (CallCompletes c k) ls \/ In (PeerAbort c) ls.
 Proof. exact every_accepted_call_completed. Qed.
 
-Theorem c13_new_calls_only_before_graceful_shutdown :
+Theorem c13_new_calls_only_before_final_goaway :
   forall admits resolves, hyper_contract admits resolves ->
   forall s c k s',
     step admits resolves s (NewCall c k) s' ->
-    exists f infl, lookup c (conns s) = Some (Live Open false f infl) /\ ~ In k infl.
-Proof. exact new_call_only_before_graceful_shutdown. Qed.
+    exists gs f hp infl,
+      lookup c (conns s) = Some (Live Open gs f hp infl) /\ hp <> GFin /\ ~ In k infl.
+Proof. exact new_call_only_before_final_goaway. Qed.
+
+Theorem c13_no_new_call_after_final_goaway :
+  forall admits resolves, hyper_contract admits resolves ->
+  forall s ls s' c,
+    run admits resolves s ls s' -> past_final s c -> forall k, ~ In (NewCall c k) ls.
+Proof. exact no_new_call_past_final. Qed.
 
 (* ---- the serve future can return: no deadlock, and a variant ------------------------------ *)
 (* in every reachable state after the accept loop has been left, tonic / hyper / a handler can
-   move - unless all that is left are peers that never sent their preface *)
+   move - unless all that is left are peers that never sent their preface or have not
+   acknowledged the shutdown ping *)
 Theorem c13_no_deadlock :
   forall admits resolves, hyper_contract admits resolves ->
   forall s p,
     reachable admits resolves s -> acc s = Draining p ->
     (exists l s', step admits resolves s l s' /\ progress l = true) \/
-    (p = AtWait /\ rx_count s <> 0 /\ only_silent s).
+    (p = AtWait /\ rx_count s <> 0 /\ only_awaiting_peers s).
 Proof. exact no_deadlock_reachable. Qed.
 
 (* [mu] = acceptor phase + per connection (open, not told, in handshake, calls in flight):
@@ -136,24 +174,44 @@ Theorem c13_serve_can_return :
   forall s,
     reachable admits resolves s -> acc s <> Selecting ->
     exists ls s', run admits resolves s ls s' /\
-                  Forall (fun l => progress l = true \/ is_handshake l = true) ls /\
+                  Forall (fun l => progress l = true \/ is_peer l = true) ls /\
                   acc s' = Done /\ length ls <= mu s.
 Proof. exact serve_can_return_reachable. Qed.
 
+(* ---- the window between the firing of the signal and its observation ---------------------- *)
+Theorem c13_signal_fires_once :
+  forall admits resolves ls s,
+    run admits resolves init_st ls s -> count_occ label_eq_dec ls SignalFires <= 1.
+Proof. exact signal_fires_once. Qed.
+
+Theorem c13_pending_signal_can_be_observed :
+  forall admits resolves s, sig_pending s ->
+  exists s', step admits resolves s SignalObserved s' /\ acc s' = Draining AtSend.
+Proof. exact pending_enables_observation. Qed.
+
+Theorem c13_signal_enabled_until_observed :
+  forall admits resolves s ls s',
+    run admits resolves s ls s' -> sig_pending s ->
+    ~ In SignalObserved ls -> ~ In IncomingEnd ls -> sig_pending s'.
+Proof. exact signal_enabled_until_observed. Qed.
+
 (* ---- the tie: what the harness's trace check means ----------------------------------------- *)
 Theorem c13_checked_trace_is_a_run :
-  forall evs, trace_ok evs = true ->
+  forall age evs, trace_ok age evs = true ->
   exists ls s, run admits_std resolves_std init_st ls s /\
               observe ls = filter visible evs /\ acc s = Done.
 Proof. exact trace_ok_sound. Qed.
 
 Theorem c13_checked_trace_properties :
-  forall evs, trace_ok evs = true ->
+  forall age evs, trace_ok age evs = true ->
   let evs := filter visible evs in
   (forall e e1 e2 c, e = ESignal \/ e = EIncomingEnd -> evs = e1 ++ e :: e2 -> ~ In (EAccept c) e2) /\
+  (forall e1 e2, evs = e1 ++ ESignal :: e2 -> In ESignalFired e1) /\
   (forall e1 e2, evs = e1 ++ EServeReturned :: e2 ->
-     e2 = [] /\ forall c, In (EAccept c) e1 -> In (EConnClosed c) e1 \/ In (EPeerAbort c) e1) /\
-  (forall c k, In (ECallStart c k) evs -> In (ECallDone c k) evs \/ In (EPeerAbort c) evs).
+     Forall (fun e => e = ESignalFired) e2 /\
+     forall c, In (EAccept c) e1 -> In (EConnClosed c) e1 \/ In (EPeerAbort c) e1) /\
+  (forall c k, In (ECallStart c k) evs -> In (ECallDone c k) evs \/ In (EPeerAbort c) evs) /\
+  (forall e1 e2 c k, evs = e1 ++ EGoawayFinal c :: e2 -> ~ In (ECallStart c k) e2).
 Proof. exact trace_ok_properties. Qed.
 
 (* the meaning of the harness event EQuiet ("nothing moved although every handler was let
@@ -170,29 +228,31 @@ Proof. exact stalled_refuses_progress. Qed.
 Example c13_hyper_contract_satisfiable : hyper_contract admits_std resolves_std.
 Proof. exact hyper_std_contract. Qed.
 
-(* a reachable state in the middle of a shutdown: two connections, the signal observed and sent,
-   connection 0 told (one of its two calls already complete), connection 1 not yet told and
-   still taking a call *)
+(* a reachable state in the middle of a shutdown: two connections, the signal fired, observed
+   and sent, connection 0 told and its GOAWAY announcement out (one of its two calls already
+   complete), connection 1 not yet told and still taking a call *)
 Example c13_reachable_mid_shutdown :
   exists s,
     run admits_std resolves_std init_st
         [Accept 0%N; HandshakeDone 0%N; NewCall 0%N 7%N; Accept 1%N; HandshakeDone 1%N;
-         NewCall 1%N 8%N; NewCall 0%N 9%N; SignalObserved; Send; ConnSeesChange 0%N;
-         CallCompletes 0%N 7%N; DropAcceptorRx; NewCall 1%N 5%N] s /\
+         NewCall 1%N 8%N; NewCall 0%N 9%N; SignalFires; SignalObserved; Send; ConnSeesChange 0%N;
+         Goaway 0%N; CallCompletes 0%N 7%N; DropAcceptorRx; NewCall 1%N 5%N] s /\
     acc s = Draining AtWait /\ sig_fused s = true /\ version s = 1 /\ rx_count s = 2 /\
-    inflight s 0%N = [9%N] /\ inflight s 1%N = [5%N; 8%N] /\ mu s = 10.
+    inflight s 0%N = [9%N] /\ inflight s 1%N = [5%N; 8%N] /\ mu s = 13.
 Proof. eexists. split; [apply exec_run; reflexivity|repeat split]. Qed.
 
-(* ... and a complete run: the late call on the told connection is impossible, everything
-   drains, the serve future returns *)
+(* ... and a complete run: a call in the window between the two GOAWAY frames is still admitted,
+   one after the final GOAWAY is impossible, everything drains, the serve future returns *)
 Example c13_complete_run :
   exec admits_std resolves_std init_st
-       [Accept 0%N; HandshakeDone 0%N; NewCall 0%N 7%N; SignalObserved; Send; ConnSeesChange 0%N;
-        NewCall 0%N 8%N] = None /\
+       [Accept 0%N; HandshakeDone 0%N; NewCall 0%N 7%N; SignalFires; SignalObserved; Send;
+        ConnSeesChange 0%N; Goaway 0%N; NewCall 0%N 6%N; GoawayFinal 0%N; NewCall 0%N 8%N] = None /\
   exists s,
     run admits_std resolves_std init_st
-        [Accept 0%N; HandshakeDone 0%N; NewCall 0%N 7%N; SignalObserved; Send; ConnSeesChange 0%N;
-         DropAcceptorRx; CallCompletes 0%N 7%N; ConnCloses 0%N; DropReceiver 0%N; ServeReturns] s /\
+        [Accept 0%N; HandshakeDone 0%N; NewCall 0%N 7%N; SignalFires; SignalObserved; Send;
+         ConnSeesChange 0%N; Goaway 0%N; NewCall 0%N 6%N; GoawayFinal 0%N; DropAcceptorRx;
+         CallCompletes 0%N 7%N; CallCompletes 0%N 6%N; ConnCloses 0%N; DropReceiver 0%N;
+         ServeReturns] s /\
     acc s = Done /\ all_closed s.
 Proof.
   split; [reflexivity|]. eexists. split; [apply exec_run; reflexivity|].
@@ -200,17 +260,42 @@ Proof.
   destruct c; intros H; [now injection H as <-|discriminate H].
 Qed.
 
+(* the signal has fired but select! keeps picking the listener: connections are accepted in
+   between, the signal branch stays enabled, and once taken nothing more is accepted *)
+Example c13_accepts_between_firing_and_observation :
+  exists s,
+    run admits_std resolves_std init_st [SignalFires; Accept 0%N; Accept 1%N; Accept 2%N] s /\
+    sig_pending s /\
+    exec admits_std resolves_std s [SignalObserved; Accept 3%N] = None /\
+    exists s', step admits_std resolves_std s SignalObserved s'.
+Proof.
+  eexists. split; [apply exec_run; reflexivity|].
+  split; [repeat split|]. split; [reflexivity|]. eexists. reflexivity.
+Qed.
+
+(* max_connection_age tells a connection without any signal *)
+Example c13_age_tells_without_signal :
+  exists s,
+    run admits_std resolves_std init_st
+        [Accept 0%N; HandshakeDone 0%N; NewCall 0%N 1%N; AgeExpires 0%N; Goaway 0%N;
+         GoawayFinal 0%N; CallCompletes 0%N 1%N; ConnCloses 0%N; DropReceiver 0%N] s /\
+    acc s = Selecting /\ rx_count s = 1 /\ all_closed s.
+Proof.
+  eexists. split; [apply exec_run; reflexivity|]. repeat split.
+  intros c v. simpl. destruct c; intros H; [now injection H as <-|discriminate H].
+Qed.
+
 (* a peer that never speaks stalls the shutdown (the second disjunct of c13_no_deadlock) *)
 Example c13_silent_peer_stalls :
   exists s,
     run admits_std resolves_std init_st
-        [Accept 0%N; SignalObserved; Send; DropAcceptorRx; ConnSeesChange 0%N] s /\
+        [Accept 0%N; SignalFires; SignalObserved; Send; DropAcceptorRx; ConnSeesChange 0%N] s /\
     acc s = Draining AtWait /\ rx_count s = 1 /\ only_silent s /\
     forall l s', step admits_std resolves_std s l s' -> l = HandshakeDone 0%N \/ l = PeerAbort 0%N.
 Proof.
   eexists. split; [apply exec_run; reflexivity|]. repeat split.
   - intros c v. simpl. destruct c; intros H; [|discriminate H].
-    injection H as <-. right. eexists. reflexivity.
+    injection H as <-. right. eexists. eexists. reflexivity.
   - intros l s' H. unfold step in H.
     destruct l; simpl in H; try discriminate; destruct c; try discriminate; auto.
 Qed.
@@ -224,3 +309,5 @@ Print Assumptions c13_every_accepted_call_completed_before_return.
 Print Assumptions c13_no_deadlock.
 Print Assumptions c13_serve_can_return.
 Print Assumptions c13_checked_trace_properties.
+Print Assumptions c13_signal_enabled_until_observed.
+Print Assumptions c13_no_new_call_after_final_goaway.
